@@ -344,6 +344,18 @@ func (r *Roles) resolveConnFields(pkg *types.Package) {
 		}
 		for j := 0; j < ns.NumFields(); j++ {
 			f := ns.Field(j)
+			// the connection-unusable flag kept with its lock in a small struct (connErr{lk, err})
+			if r.FFlag == nil && isErrorType(f.Type()) {
+				hasLk := false
+				for k := 0; k < ns.NumFields(); k++ {
+					if isMutex(ns.Field(k).Type()) {
+						hasLk = true
+					}
+				}
+				if hasLk {
+					r.FFlag = f
+				}
+			}
 			m, ok := f.Type().(*types.Map)
 			if !ok {
 				continue
